@@ -6,7 +6,6 @@
    Over the search model (timeout = first expiry at poll k, any k; any repetition table):
    the returned move is a generated legal move of the root (C11_legal), no legal move => no move (C11_none),
    legal moves + completed first pass => a move (C11_some); alphabeta only returns realistic scores.
-   `small_root` = at most 400 generated moves (the model's drain fuel; real positions have <= 218).
    OPEN: termination of the model's fuel needs "captures remove a man" for generated moves (relative
    version proved in SearchFacts: search_exact_rel); lifting `legals` to Rules.legal_moves is C01.
    Also decided per run by the poll-exact correspondence on counting timeouts and the spec monitor
@@ -29,8 +28,8 @@ Proof. exact first_child_improves. Qed.
 Print Assumptions C11_first_child_improves.
 
 Theorem C11_legal : forall k tf passes fuel root m sc d f,
-  small_root root -> Search.search k tf passes fuel root = (Some m, sc, d, f) -> In m (legals root).
-Proof. exact search_move_legal. Qed.
+  Search.search k tf passes fuel root = (Some m, sc, d, f) -> In m (legals root).
+Proof. exact search_move_legal_all. Qed.
 Print Assumptions C11_legal.
 
 Theorem C11_none : forall k tf passes fuel root, legals root = nil ->
@@ -39,8 +38,8 @@ Proof. exact search_none_gen. Qed.
 Print Assumptions C11_none.
 
 Theorem C11_some : forall k tf passes fuel root sc best st',
-  small_root root -> legals root <> nil ->
+  legals root <> nil ->
   pass k tf (fuel + N.to_nat 0) root 0 None {| s_polls := 0; s_evals := 0 |} = PassDone sc best st' ->
   fst (fst (fst (Search.search k tf (S passes) fuel root))) <> None.
-Proof. exact search_some. Qed.
+Proof. exact search_some_all. Qed.
 Print Assumptions C11_some.
